@@ -7,3 +7,41 @@ package sourcebundle
 
 //@ func OpenDir -> (b, err)
 //@   sweep
+//@   invariant loop1 C18.open.inv1: ret != nil && ret.rootDir == Abs(baseDir) && dirSafeAt(ret, skolem("K", "sourceaddrs.RemotePackage"))
+//@   ensures C18.open.dirs-safe: err == nil ==> b != nil && rootOK(b) && dirSafeAt(b, skolem("K", "sourceaddrs.RemotePackage"))
+//@   ensures C12.open.nil-on-error: err != nil ==> b == nil
+
+// Object invariant of a Bundle, instantiated at one package key K.
+//@ macro rootOK(B): isAbs(B.rootDir) && Clean(B.rootDir) == B.rootDir
+//@ macro dirSafeAt(B, K): B.remotePackageDirs != nil && (mapHas(B.remotePackageDirs, K) ==> safeSeg(B.remotePackageDirs[K]))
+
+//@ func (*Bundle).LocalPathForRemoteSource -> (r, err)
+//@   pure
+//@   sweep
+//@   requires pre.b: b != nil
+//@   requires pre.inv: rootOK(b) && dirSafeAt(b, addr.pkg) && normSub(addr.subPath)
+//@   ensures C18.remote.inside: err == nil ==> segUnder(r, b.rootDir)
+//@   ensures C18,C08.remote.value: err == nil ==> mapHas(b.remotePackageDirs, addr.pkg) && r == Join(Join(b.rootDir, b.remotePackageDirs[addr.pkg]), addr.subPath)
+//@   ensures C18,C08.remote.found: (err == nil) == mapHas(b.remotePackageDirs, addr.pkg)
+
+//@ func (*Bundle).LocalPathForRegistrySource -> (r, err)
+//@   pure
+//@   sweep
+//@   requires pre.b: b != nil
+//@   requires pre.inv: rootOK(b) && normSub(addr.subPath)
+//@       && dirSafeAt(b, b.registryPackageSources[addr.pkg][version].pkg) && normSub(b.registryPackageSources[addr.pkg][version].subPath)
+//@   ensures C18.registry.inside: err == nil ==> segUnder(r, b.rootDir)
+//@   ensures C18,C08.registry.same-as-remote: err == nil ==> mapHas(b.registryPackageSources, addr.pkg) && mapHas(b.registryPackageSources[addr.pkg], version)
+//@       && mapHas(b.remotePackageDirs, b.registryPackageSources[addr.pkg][version].pkg)
+//@       && r == Join(Join(b.rootDir, b.remotePackageDirs[b.registryPackageSources[addr.pkg][version].pkg]),
+//@                    ite(Join(b.registryPackageSources[addr.pkg][version].subPath, addr.subPath) == ".", "", Join(b.registryPackageSources[addr.pkg][version].subPath, addr.subPath)))
+
+//@ func (*Bundle).SourceForLocalPath -> (r, err)
+//@   sweep
+//@   requires pre.b: b != nil
+//@   requires pre.inv: rootOK(b) && b.remotePackageDirs != nil
+//@   invariant loop1 C18.reverse.inv: found ==> mapHas(b.remotePackageDirs, pkgAddr) && b.remotePackageDirs[pkgAddr] == localDir
+//@   ensures C18.reverse.inverse: err == nil ==> dyntype(r, "sourceaddrs.RemoteSource") && mapHas(b.remotePackageDirs, unbox(r, "sourceaddrs.RemoteSource").pkg)
+//@       && Join(Join(b.rootDir, b.remotePackageDirs[unbox(r, "sourceaddrs.RemoteSource").pkg]), unbox(r, "sourceaddrs.RemoteSource").subPath) == Abs(p)
+//@   ensures C18.reverse.outside: !AbsErr(p) && (!segUnder(Abs(p), b.rootDir) || Abs(p) == b.rootDir) ==> err != nil
+//@   ensures C18.reverse.noresult: err != nil ==> r == nil
